@@ -12,6 +12,7 @@ import (
 	"fmt"
 	"net"
 	"reflect"
+	"sort"
 	"strings"
 	"sync"
 	"time"
@@ -44,6 +45,9 @@ type world struct {
 	Name string
 	// zone: key "name/type" -> records
 	zone map[string][]dnsref.RR
+	// expect: for the element o.example:443, address:port -> ECH list of the HTTPS record that produces it (nil = none), written
+	// by hand from RFC 9460 (independent of ResolveResult.Targets)
+	expect map[string][]byte
 }
 
 func a(name string, ip ...byte) dnsref.RR {
@@ -74,28 +78,48 @@ func worlds() []world {
 		}
 	}
 	var out []world
+	var exp map[string][]byte
 	add := func(name string, f func(z map[string][]dnsref.RR)) {
 		z := base()
+		exp = map[string][]byte{}
 		f(z)
-		out = append(out, world{name, z})
+		out = append(out, world{name, z, exp})
 	}
-	add("no-https", func(z map[string][]dnsref.RR) {})
-	add("one-record-ech", func(z map[string][]dnsref.RR) { z["o.example/65"] = []dnsref.RR{https("o.example", 1, "", listE1, 0)} })
-	add("one-record-no-ech", func(z map[string][]dnsref.RR) { z["o.example/65"] = []dnsref.RR{https("o.example", 1, "", nil, 0)} })
+	const origin, tgt1, ali1 = "192.0.2.1", "198.51.100.1", "203.0.113.1"
+	add("no-https", func(z map[string][]dnsref.RR) { exp[origin+":443"] = nil })
+	add("one-record-ech", func(z map[string][]dnsref.RR) {
+		z["o.example/65"] = []dnsref.RR{https("o.example", 1, "", listE1, 0)}
+		exp[origin+":443"] = listE1
+	})
+	add("one-record-no-ech", func(z map[string][]dnsref.RR) {
+		z["o.example/65"] = []dnsref.RR{https("o.example", 1, "", nil, 0)}
+		exp[origin+":443"] = nil
+	})
+	// a preferred record whose target has no address at all contributes nothing: the origin's address belongs to the
+	// second record (with ITS list), never to the first one's
+	add("unresolvable-target-then-origin", func(z map[string][]dnsref.RR) {
+		z["o.example/65"] = []dnsref.RR{https("o.example", 1, "nx.example", listE1, 0), https("o.example", 2, "", listE2, 0)}
+		exp[origin+":443"] = listE2
+	})
 	add("two-records-ech-first", func(z map[string][]dnsref.RR) {
+		exp[origin+":443"], exp[tgt1+":443"] = listE1, nil
 		z["o.example/65"] = []dnsref.RR{https("o.example", 1, "", listE1, 0), https("o.example", 2, "t1.example", nil, 0)}
 	})
 	add("two-records-ech-second", func(z map[string][]dnsref.RR) {
+		exp[origin+":443"], exp[tgt1+":8443"] = nil, listE2
 		z["o.example/65"] = []dnsref.RR{https("o.example", 1, "", nil, 0), https("o.example", 2, "t1.example", listE2, 8443)}
 	})
 	add("two-records-ech-both", func(z map[string][]dnsref.RR) {
+		exp[tgt1+":443"], exp[origin+":443"] = listE1, listE2
 		z["o.example/65"] = []dnsref.RR{https("o.example", 1, "t1.example", listE1, 0), https("o.example", 2, "", listE2, 0)}
 	})
 	add("alias-to-service-ech", func(z map[string][]dnsref.RR) {
+		exp[ali1+":443"] = listE1
 		z["o.example/65"] = []dnsref.RR{https("o.example", 0, "a1.example", nil, 0)}
 		z["a1.example/65"] = []dnsref.RR{https("a1.example", 1, "", listE1, 0)}
 	})
 	add("target-with-own-address-ech", func(z map[string][]dnsref.RR) {
+		exp[tgt1+":443"] = listE1
 		z["o.example/65"] = []dnsref.RR{https("o.example", 1, "t1.example", listE1, 0)}
 	})
 	return out
@@ -145,7 +169,8 @@ func runOnce(sc scenario, w world, host string, choose vsched.Chooser) (inv []in
 		return dohmem.Answer{Records: w.zone[fmt.Sprintf("%s/%d", name, t)]}
 	}
 	res, _ := ech.NewResolver("https://" + host + "/dns-query")
-	// expected ECH list per address (per comma element), from the same resolution data through Targets (C15 covers Targets itself)
+	// expected ECH list per address (per comma element): hand-written per world (independent of Targets); the addresses that
+	// Targets derives from the same data must be exactly those (a disagreement is reported as its own violation by check)
 	expectECH, expectHost = map[string][]byte{}, map[string]string{}
 	for _, el := range strings.Split(sc.Addr, ",") {
 		el = strings.TrimSpace(el)
@@ -153,15 +178,15 @@ func runOnce(sc scenario, w world, host string, choose vsched.Chooser) (inv []in
 		if err != nil {
 			h = el
 		}
-		rr, err := res.Resolve(context.Background(), el)
-		if err != nil {
-			continue
-		}
-		for t := range rr.Targets("tcp") {
-			if _, dup := expectECH[t.Address.String()]; !dup {
-				expectECH[t.Address.String()] = t.ECH
-				expectHost[t.Address.String()] = h
+		switch h {
+		case "o.example":
+			for a, l := range w.expect {
+				expectECH[a], expectHost[a] = l, h
 			}
+		case "o2.example":
+			expectECH["192.0.2.2:8443"], expectHost["192.0.2.2:8443"] = listE2, h
+		default:
+			expectECH[el], expectHost[el] = nil, h
 		}
 	}
 	if !sc.NilConfig {
@@ -225,6 +250,15 @@ func runOnce(sc scenario, w world, host string, choose vsched.Chooser) (inv []in
 	return
 }
 
+func keysOf(m map[string]string) []string {
+	var out []string
+	for k := range m {
+		out = append(out, k)
+	}
+	sort.Strings(out)
+	return out
+}
+
 func publicNameOf(list []byte) string {
 	cfgs, err := tlsref.ParseConfigList(list)
 	if err != nil || len(cfgs) != 1 {
@@ -251,6 +285,9 @@ func check(sc scenario, inv []invocation, before, after, caller *tls.Config, exp
 		}
 		if sc.RequireECH && iv.list == nil {
 			return "require-ech-violated", fmt.Sprintf("invocation %d (%s) has no ECH config list although RequireECH is set", i, iv.addr)
+		}
+		if _, known := expectHost[iv.addr]; !known {
+			return "unexpected-address", fmt.Sprintf("invocation %d dials %s, which no record of this world produces (expected one of %v)", i, iv.addr, keysOf(expectHost))
 		}
 		wantSN := expectHost[iv.addr]
 		if sc.CallerSN && !sc.NilConfig {
@@ -303,8 +340,8 @@ func check(sc scenario, inv []invocation, before, after, caller *tls.Config, exp
 }
 
 func Run(r *ev.Run) {
-	r.Rule("E1 x E2: resolution worlds {no HTTPS; one record with/without ECH; two records with ECH on first/second/both (different targets, ports, lists); alias to a service record with ECH; target with own address} x caller config {nil, plain, ServerName set, ECH list set, both} x RequireECH x PublicName {'', p.example} x address {host:port, IP literal, two comma-separated hosts (the second on port 8443)}; per scenario EVERY tree of attempt outcomes {ok, error, ECH rejection without retry configs, rejection with retry configs} at every DialFunc invocation (deviation bound: unlimited quick up to depth of the run; MaxConcurrency 1 so that invocations are sequential). Oracle on the argument log of DialFunc. distinct = distinct (scenario, outcome vector)")
-	r.Assume("expected per-address ECH lists are derived with ResolveResult.Targets from the same zone (C15 decides Targets itself)", "real goroutines of Dial run outside a scheduler; MaxConcurrency=1 makes the invocation log sequential; a failing execution is re-run 5 times and reported only if it fails each time")
+	r.Rule("E1 x E2: resolution worlds {no HTTPS; one record with/without ECH; a preferred record whose target has no address followed by one for the origin; two records with ECH on first/second/both (different targets, ports, lists); alias to a service record with ECH; target with own address} x caller config {nil, plain, ServerName set, ECH list set, both} x RequireECH x PublicName {'', p.example} x address {host:port, IP literal, two comma-separated hosts (the second on port 8443)}; per scenario EVERY tree of attempt outcomes {ok, error, ECH rejection without retry configs, rejection with retry configs} at every DialFunc invocation (deviation bound: unlimited quick up to depth of the run; MaxConcurrency 1 so that invocations are sequential). Oracle on the argument log of DialFunc. distinct = distinct (scenario, outcome vector)")
+	r.Assume("expected per-address ECH lists and the set of dialled addresses are written by hand per world from RFC 9460 (independent of ResolveResult.Targets)", "real goroutines of Dial run outside a scheduler; MaxConcurrency=1 makes the invocation log sequential; a failing execution is re-run 5 times and reported only if it fails each time")
 	muxOnce.Do(func() { dns.VerifRoundTripper = mux })
 	ws := worlds()
 	var scs []scenario
